@@ -22,6 +22,7 @@ from __future__ import annotations
 
 import copy
 import itertools
+import os
 
 from .. import explore, world
 from .. import c12_model as M
@@ -71,6 +72,11 @@ def execute(case, chooser):
     tty = M.TraceTty(cols, rows, xpx, ypx, responder=resp, attrs=M.make_attrs(case.get("attrs", "canon-echo")),
                      chooser=chooser, allow_silence=bool(case.get("late")), eager=case.get("eager", True))
     world.install(tty)
+    env = {k: v for k, v in os.environ.items() if k not in ("TERM_PROGRAM", "TERM_PROGRAM_VERSION")}
+    for k, v in zip(("TERM_PROGRAM", "TERM_PROGRAM_VERSION"), case.get("env") or (None, None)):
+        if v is not None:
+            env[k] = v
+    L.utils.os.environ = env         # the proxy standing in for `os` inside term_image.utils (a per-execution copy)
     if case.get("swap"):
         L.ti.enable_win_size_swap()
     if not case.get("enabled", True):
@@ -255,9 +261,11 @@ def judge(col, case, obs, choices):
                 f"(acceptable: fg {_acc(fg)}, bg {_acc(bg)})",
                 _base={}, component_widths="mixed" if mixed else "uniform")
     elif op == "namever":
-        want = M.ref_name_version(r.get("xtversion")) if enabled else (None, None)
+        want = ref_nv(case, enabled)
         if obs.get("namever") != want:
-            bad("name-version", f"reported {obs.get('namever')!r}, terminal said {r.get('xtversion')!r} -> {want!r}")
+            bad("name-version", f"reported {obs.get('namever')!r}, terminal said {r.get('xtversion')!r}, environment "
+                f"TERM_PROGRAM/_VERSION={case.get('env')} -> {want!r}",
+                source="reply" if enabled and r.get("xtversion") is not None else "environment" if case.get("env") else "none")
     elif op == "cell":
         cols, rows, xpx, ypx = case["win"]
         want = M.ref_cell(cols, rows, xpx, ypx, r.get("t16"), r.get("t14"), bool(case.get("swap")), enabled)
@@ -332,10 +340,12 @@ def judge(col, case, obs, choices):
                         f"reported {v!r}, the terminal says {want!r}", step=step, queries="enabled" if en else "disabled",
                         after_toggle=next((t for t in reversed(hist[:-1]) if t in TOGGLES), "none"))
     elif op == "auto":
-        name, version = M.ref_name_version(r.get("xtversion")) if enabled else (None, None)
+        name, version = ref_nv(case, enabled)
         kreply =_enc(r.get("kitty")) if enabled else None
         if obs.get("namever") != (name, version):
-            bad("name-version", f"reported {obs.get('namever')!r}, terminal said {r.get('xtversion')!r}")
+            bad("name-version", f"reported {obs.get('namever')!r}, terminal said {r.get('xtversion')!r}, environment "
+                f"TERM_PROGRAM/_VERSION={case.get('env')}",
+                source="reply" if enabled and r.get("xtversion") is not None else "environment" if case.get("env") else "none")
         rk, ri = M.ref_kitty(name, version, kreply), M.ref_iterm2(name, version)
         sk, si, sb = obs["sup"]
         if rk is not None and sk is not rk:
@@ -353,6 +363,19 @@ def judge(col, case, obs, choices):
             if obs.get(k) != want:
                 bad("auto-selection", f"{k} picked {obs.get(k)}, most capable supported style is {want} "
                     f"(kitty={ek}, iterm2={ei})", api=k, want=want)
+
+
+def ref_nv(case, enabled=True):
+    """Name and version: the XTVERSION reply when there is one, else the documented fallback - the
+    TERM_PROGRAM / TERM_PROGRAM_VERSION environment variables (name lower-cased), else None."""
+    xt = case["resp"].get("xtversion")
+    if enabled and xt is not None:
+        return M.ref_name_version(xt)
+    name, version = case.get("env") or (None, None)
+    return (name.lower() if name else None, version)
+
+
+ENVS = [("WezTerm", "20240203-110809-5046fc22"), ("iTerm.app", None), (None, "1.2"), ("kitty", "0.30.1")]
 
 
 def _enc(v):
@@ -422,7 +445,8 @@ def build_cases(tier):
         specs += [("rgb:1/2/3", "rgb:fff/000/800"), ("rgb:ABCD/abcd/00C0", "rgb:c/c/c"),
                   ("rgb:00/8000/f", "rgb:7fff/80/8")]
     attr_sets = ["canon-echo"] if quick else ["canon-echo", "raw-noecho-vmin0-vtime5", "raw-echo-vmin1"]
-    timeouts = [0.1] if quick else [0.1, 0.03]
+    timeouts = [0.1, 0.05, 0.5] if quick else [0.1, 0.03, 0.05, 0.5]   # configured query timeouts: both sides of the default
+    timeouts_e = [0.1] if quick else [0.1, 0.03]
     for fg, bg in specs:
         for sup in itertools.product((True, False), repeat=3):
             for st in ("ST", "BEL"):
@@ -441,6 +465,10 @@ def build_cases(tier):
                 for to in timeouts:
                     add(dict(part="C", op="namever", attrs=at, timeout=to,
                              resp=dict(xtversion=None if ident is None else ident.decode(), da1=da1)))
+                    if ident in (None, b"XTerm(370)") and to == 0.1:
+                        for env in ENVS:       # XTVERSION unsupported -> the environment identifies the terminal
+                            add(dict(part="C", op="namever", attrs=at, timeout=to, env=list(env),
+                                     resp=dict(xtversion=None if ident is None else ident.decode(), da1=da1)))
     # ---- D: cell size
     wins = [(80, 24, 0, 0), (80, 24, 800, 480), (80, 24, 0, 480)]
     if not quick:
@@ -460,10 +488,15 @@ def build_cases(tier):
         for kr in kreps:
             for da1 in (True, False):
                 for at in attr_sets:
-                    for to in timeouts:
+                    for to in timeouts_e:
                         add(dict(part="E", op="auto", win=(80, 24, 800, 480), attrs=at, timeout=to,
                                  resp=dict(xtversion=None if ident is None else ident.decode(),
                                            kitty=None if kr is None else kr.decode(), da1=da1)))
+                    if ident in (None, b"XTerm(370)") and at == "canon-echo":
+                        for env in (ENVS[0], ENVS[3]):
+                            add(dict(part="E", op="auto", win=(80, 24, 800, 480), attrs=at, env=list(env),
+                                     resp=dict(xtversion=None if ident is None else ident.decode(),
+                                               kitty=None if kr is None else kr.decode(), da1=da1)))
     # ---- F: documented defaults: queries disabled / a terminal that answers nothing
     full = dict(fg="rgb:ffff/ffff/ffff", bg="rgb:0000/0000/0000", xtversion="kitty(0.30.1)", kitty="OK",
                 t16=(17, 9), t14=(384, 560), da1=True)
@@ -475,6 +508,9 @@ def build_cases(tier):
                     for swap in ((False, True) if op == "cell" else (False,)):
                         add(dict(part="F", op=op, win=win, attrs=at, timeout=to, swap=swap, enabled=False, resp=full))
                         add(dict(part="F", op=op, win=win, attrs=at, timeout=to, swap=swap, enabled=True, resp=mute))
+                        if op in ("namever", "auto") and to == 0.1 and win[2]:
+                            add(dict(part="F", op=op, win=win, attrs=at, env=list(ENVS[0]), enabled=False, resp=full))
+                            add(dict(part="F", op=op, win=win, attrs=at, env=list(ENVS[0]), enabled=True, resp=mute))
     # ---- DA1 reply variants (the drained second phase) for the two-phase getters and the 'c'-terminated reads
     for da1 in DA1_VARIANTS:
         for st in ("ST", "BEL"):
@@ -586,7 +622,8 @@ def run(ctx):
                      "swap on/off} ending with a get, length <= %d" % (4 if quick else 5),
                    G="late replies (outside premise), deviation bound %d" % (2 if quick else 4)),
         schedule_bound="unbounded (whole choice tree) in parts B-F; 0 in A",
-        delays=["already queued at tcdrain (first j replies)", "0", "0.001 s", "0.98 x remaining timeout"], timeouts=[0.1] if quick else [0.1, 0.03],
+        delays=["already queued at tcdrain (first j replies)", "0", "0.001 s", "0.98 x remaining timeout"], timeouts=[0.1, 0.05, 0.5] if quick else [0.1, 0.03, 0.05, 0.5],
+        environment="TERM_PROGRAM / TERM_PROGRAM_VERSION unset, and %s where XTVERSION is unsupported / disabled / mute" % (ENVS,),
         identities=len(IDENTS_QUICK) + (0 if quick else len(IDENTS_MORE)))
     ctx.assumptions += [
         "world.VTty is the tty: replies are atomic, in order, delivered at blocking select/read calls; virtual clock",
